@@ -47,9 +47,9 @@ def RouterM.new (o : Opts) : RouterM :=
 
 /-! ### registration -/
 
-def methodGET : Bytes := Bytes.ofString "GET"
-def methodHEAD : Bytes := Bytes.ofString "HEAD"
-def anyMethodsB : List Bytes := Facts.anyMethods.map Bytes.ofString
+def methodGET : Bytes := [71, 69, 84]        -- "GET"
+def methodHEAD : Bytes := [72, 69, 65, 68]   -- "HEAD"
+def anyMethodsB : List Bytes := Facts.anyMethodsB
 
 /-- `formatMethodsWithDefault(methods, GET)`; `none` when a name has non-ASCII bytes
     (`strings.ToUpper` is Unicode aware there; outside the model) -/
@@ -157,23 +157,26 @@ def firstMatch (rs : List RouteM) (path : Bytes) (useStart : Bool) : Option (Rou
     if useStart && !Bytes.hasPrefix path r.info.start then none
     else (routeMatch r path).map fun ps => (r, ps)
 
+/-- the list stored under a key; a missing key is an empty list (`rs, ok := m[key]; if ok {range rs}`) -/
+def listAt (l : List (Bytes × List RouteM)) (k : Bytes) : List RouteM := (alistGet l k).getD []
+
+/-- the regular tier: routes keyed by method ++ first path segment -/
+def regTier (rt : RouterM) (method path : Bytes) : Option (RouteM × Params) :=
+  match Bytes.indexByte (path.drop 1) 0x2F with
+  | some pos =>
+    if pos > 0 then firstMatch (listAt rt.regular (method ++ (path.drop 1).take pos)) path true
+    else none
+  | none => none
+
+/-- the irregular tier: the residual dynamic routes of the method -/
+def irrTier (rt : RouterM) (method path : Bytes) : Option (RouteM × Params) :=
+  firstMatch (listAt rt.irregular method) path false
+
 /-- the dynamic tiers (no cache) -/
 def dynMatch (rt : RouterM) (method path : Bytes) : Option (RouteM × Params) :=
-  let reg :=
-    match Bytes.indexByte (path.drop 1) 0x2F with
-    | some pos =>
-      if pos > 0 then
-        match alistGet rt.regular (method ++ (path.drop 1).take pos) with
-        | some rs => firstMatch rs path true
-        | none => none
-      else none
-    | none => none
-  match reg with
+  match regTier rt method path with
   | some x => some x
-  | none =>
-    match alistGet rt.irregular method with
-    | some rs => firstMatch rs path false
-    | none => none
+  | none => irrTier rt method path
 
 /-- `Router.match`: static → cache → regular → irregular; a dynamic match is stored under method++path.
     Returns (route, params, served from cache?) and the new cache. -/
@@ -226,5 +229,48 @@ def quickMatch (rt : RouterM) (method path0 : Bytes) : MatchResult × RouterM :=
           let (alm, rt3) := findAllowed rt2 method path
           if alm.isEmpty then (.notFound, rt3) else (.allowed alm, rt3)
         else (.notFound, rt2)
+
+/-! ### specification of route selection (what C01 demands) -/
+
+/-- lookup without the cache: static table, then the dynamic tiers -/
+def lookupPure (rt : RouterM) (m q : Bytes) : Option (RouteM × Params) :=
+  match alistGet rt.stable (m ++ q) with
+  | some r => some (r, [])
+  | none => dynMatch rt m q
+
+def isStaticFor (m q : Bytes) (r : RouteM) : Bool := r.static && r.methods.contains m && (r.path == q)
+def isRegularFor (m : Bytes) (r : RouteM) : Bool := !r.static && !r.info.first.isEmpty && r.methods.contains m
+def isIrregularFor (m : Bytes) (r : RouteM) : Bool := !r.static && r.info.first.isEmpty && r.methods.contains m
+
+/-- an exact static path beats every dynamic pattern (the latest registration of a static key is the live
+    one); among dynamic patterns those with a literal first segment come first; inside each group the
+    earliest registered route whose pattern matches wins -/
+def specSelect (rs : List RouteM) (m q : Bytes) : Option (RouteM × Params) :=
+  match (rs.filter (isStaticFor m q)).getLast? with
+  | some r => some (r, [])
+  | none =>
+    match firstMatch (rs.filter (isRegularFor m)) q false with
+    | some x => some x
+    | none => firstMatch (rs.filter (isIrregularFor m)) q false
+
+/-- one route definition as given to `Router.Add` -/
+structure RouteDef where
+  id : Nat
+  name : Bytes
+  methods : List Bytes
+  path : Bytes
+  nilHandler : Bool
+
+/-- register a list of definitions in order; `none` as soon as one is rejected or unsupported -/
+def registerAll (rt : RouterM) : List RouteDef → Option (RouterM × List RouteM)
+  | [] => some (rt, [])
+  | d :: ds =>
+    match register rt d.id d.name d.methods d.path d.nilHandler with
+    | .ok rt' route =>
+      match registerAll rt' ds with
+      | some (rt'', rs) => some (rt'', route :: rs)
+      | none => none
+    | _ => none
+
 
 end Rux
